@@ -3,11 +3,17 @@
 // Sections
 //
 //	seq-<Type>      random add / add-all / add-all-array / set / get / to-array / typed
-//	                accessors / out-of-range probes / wire round trip on one typed list
-//	                against a Go slice, over the constructors {Default, 0, 1, 10, 30, other,
-//	                zero-value struct}
-//	linked          LinkedList programs against a slice (forward and backward chains checked)
-//	wire-<Type>     Write == reference bytes, Read(reference bytes) == values, canary intact
+//	                accessors / out-of-range probes / filtering / sorting+filtering / wire
+//	                round trip on a POOL of 3..6 live typed lists, each against its own Go
+//	                slice, over the constructors {Default, 0, 1, 10, 30, other, zero-value
+//	                struct}; sources of AddAll / AddAllArray come from the pool, derived
+//	                lists (Filtering results, decoded lists, AddAll sources) join it; after
+//	                every mutation ALL lists and all arrays that crossed the library boundary
+//	                are compared with their models (distinct lists are independent)
+//	linked          LinkedList programs on 2..3 lists against slices (forward and backward
+//	                chains checked on all lists after every operation)
+//	wire-<Type>     Write == reference bytes, Read(reference bytes) == values, canary intact;
+//	                decoded list / written list / byte slices are independent
 //	wire-max-count  the largest count the 24-bit field can carry
 //	sort            Sorting / SortingAnyList / Filtering: 5 primaries × 5 children × 2 × 2
 //	sort-precision  directed: integer children that differ only beyond 2^53
@@ -77,7 +83,7 @@ func runWire[T any, L tlist[T, L]](c *vlib.Ctx, k *kind[T, L], i int, r *vlib.Ra
 		l = k.newCap([]int{0, 1, 10, 30}[r.Intn(4)])
 	}
 	if r.Bool() {
-		l.AddAllArray(vals)
+		l.AddAllArray(append([]T(nil), vals...)) // vals is the model: the library never sees it
 	} else {
 		for _, v := range vals {
 			k.add(l, v)
@@ -284,5 +290,15 @@ func main() {
 	c.Floor("adjacent_ties_decided_by_child", 2500, c.Counter("adjacent_ties_decided_by_child"))
 	c.Floor("filtering_calls", 120, c.Counter("filtering_calls"))
 	c.Floor("pack_sorts", 30, c.Counter("pack_sorts"))
+	// independence monitor: every list of the pool / every held array compared after a mutation
+	c.Floor("lists_verified", 100000, c.Counter("lists_verified"))
+	c.Floor("held_arrays_verified", 100000, c.Counter("held_arrays_verified"))
+	c.Floor("addall_from_pool_list", 600, c.Counter("addall_from_pool_list"))
+	c.Floor("addall_into_empty_too_small_list", 80, c.Counter("addall_into_empty_too_small_list"))
+	c.Floor("decoded_lists_joined", 500, c.Counter("decoded_lists_joined"))
+	c.Floor("seq_filterings", 800, c.Counter("seq_filterings"))
+	c.Floor("linked_other_lists_verified", 10000, c.Counter("linked_other_lists_verified"))
+	c.Floor("wire_independence_checks", 100, c.Counter("wire_independence_checks"))
+	c.Floor("sort_independence_checks", 120, c.Counter("sort_independence_checks"))
 	c.Finish()
 }
